@@ -12,7 +12,9 @@ executable model `Model/Fetch.lean` of `concurrentGrab` / `chunkedGrab` / `grabS
 orders and — where chunking is involved — EVERY chunk size `c ≥ 1` (the literal of the code is
 regenerated into `Gen/FetchConsts.lean` on every run and only has to be positive).
 
-What is assumed of `combineProfiles` is the explicit hypothesis `MergeSpec` (C03's subject).
+What is assumed of `combineProfiles` is the explicit hypothesis `MergeSpec` (C03's subject); the
+last section ("composed with C03") proves `MergeSpec` for C03's model of `profile.Merge` and restates
+the main theorems for it.
 The model is tied to the real code by `harness/c16.go` (driver.PProf with a fault-injecting,
 delaying Fetcher plug-in) on every run.
 -/
